@@ -926,6 +926,28 @@ def c17_r3(ctx):
     f = ctx.P.fn("blob::FileStateVec::compare")
     ctx.saw(f)
     pushes = f.calls_to("std::vec::Vec::<T, A>::push")
+    if not pushes:
+        # no list is built position by position: is the report fed by a consumer that stops at
+        # the first hit (`position`, `find`, ..)?
+        def feeds(op, depth=0):
+            """calls on the way from an operand back through iterator plumbing"""
+            out = []
+            if depth > 8:
+                return out
+            for o in f.origins_of_operand(op):
+                if o[0][0] == "call":
+                    c = f.call_at[o[0][2]]
+                    out.append(c)
+                    if c.args:
+                        out += feeds(c.args[0], depth + 1)
+            return out
+        for (bb, idx, rv, pl) in f.constructs("blob::BlobError", "Contradiction"):
+            chain = feeds(rv["ops"][0])
+            stop = [c for c in chain if c.name in ("position", "rposition", "find", "find_map", "nth", "min", "max", "last", "next") and c.path.startswith("std::iter::Iterator::")]
+            if stop:
+                ctx.inst("first-hit consumer feeding the report", stop[0].where)
+                ctx.viol((f.id, "only-first-difference-reported"), "the differing targets are taken from `%s`, which yields at most one position: when several targets differ from the record only one of them is named" % stop[0].name, stop[0].where)
+                return
     ctx.need(pushes, "index push in compare")
     zipped = _compare_by_zip(ctx, f, pushes)
     for p in ([] if zipped else pushes):
